@@ -77,6 +77,25 @@ def gen_history(rng, plain=None):
     top = int(2.5 * page) + 2
     nnames = rng.randint(0, top) if rng.random() < 0.35 else rng.randint(min(page + 1, top), top)
     names = gen_universe(rng, nnames, plain)
+    # names that are proper STRING prefixes / extensions of other names in the same directory ('a/bc' next to 'a/b': legal,
+    # neither is a directory prefix of the other); some of the shorter ones are "ghosts": never uploaded, only looked up,
+    # downloaded or deleted
+    ghosts = set()
+    if names and rng.random() < 0.6:
+        for _ in range(rng.randint(1, 3)):
+            parts = rng.choice(names).split('/')
+            last = parts[-1]
+            if len(last) > 1 and rng.random() < 0.6:
+                cand, ghost = parts[:-1] + [last[:rng.randint(1, len(last) - 1)]], rng.random() < 0.6
+            else:
+                cand, ghost = parts[:-1] + [last + gen_segment(rng, plain)[:2]], False
+            others = [n.split('/') for n in names]
+            if (cand[-1] in ('.', '..') or cand[-1].endswith('.tmp') or len(cand[-1].encode()) > 200
+                    or any(cand[:len(o)] == o or o[:len(cand)] == cand for o in others)):
+                continue
+            names.append('/'.join(cand))
+            if ghost:
+                ghosts.add(names[-1])
     chunk = rng.choice([1, 2, 3, 4, 8, 16])
     ops = []
     nops = rng.randint(6, 34)
@@ -92,6 +111,8 @@ def gen_history(rng, plain=None):
             ops.append(['list', gen_prefix(rng, names, plain)])
             continue
         name = names[i] if (burst and i < len(names)) else rng.choice(names)
+        if name in ghosts and kind in ('upload', 'upload_stream'):
+            kind = rng.choice(['exists', 'exists', 'download', 'download_stream', 'delete'])
         if kind in ('upload', 'upload_stream'):
             ops.append([kind, name, gen_payload(rng, chunk).hex()])
         else:
@@ -789,6 +810,8 @@ def check_histories(hs, rep: Report, scratch: Path, spellings, with_model=True, 
             rep.case((h['ops'], h['page']), nontrivial=nlist_pages >= 2 and bool(kinds & {'delete'}) and len(ref_state) >= 1)
             rep.count(f'page_size={h["page"]}')
             rep.count('pages_max=' + ('0' if nlist_pages == 0 else '1' if nlist_pages == 1 else '2' if nlist_pages == 2 else '3+'))
+            if any(a != b and b.startswith(a) and '/' not in b[len(a):] for a in h['names'] for b in h['names']):
+                rep.count('string_prefix_names')
             rep.count('names=' + ('0' if not h['names'] else '1-3' if len(h['names']) <= 3 else '4-7' if len(h['names']) <= 7 else '8+'))
             for o in h['ops']:
                 rep.count('op=' + o[0])
@@ -877,7 +900,8 @@ def probes(rep: Report, scratch: Path):
 
 
 RULE = ('case = one operation history (upload, upload_stream, delete, exists, download, download_stream, list prefix) over a '
-        'prefix-free universe of legal names (printable incl. space, unicode, % + ? # & < >), executed on Local under several '
+        'prefix-free universe of legal names (printable incl. space, unicode, % + ? # & < >; names that are proper string prefixes of sibling '
+        'names, some never uploaded and only looked up / downloaded / deleted), executed on Local under several '
         'spellings of the repository path, on S3Compatible and B2 against the fake services (page size 1..4, 0..2.5 pages of '
         'objects, payloads around the stream chunk size), on a dict and through the Coq models; non-trivial = some listing '
         'needed >= 2 pages and the history contains a delete and ends non-empty; distinct = distinct (ops, page size)')
